@@ -11,7 +11,7 @@ from specs import event_entry, event_send
 from specs.event_entry import handler_effects, HANDLER_EFFECTS
 
 MSV = Map(STR, VAL)
-declare_fields(_state=VAL, _active_timer=VAL, _fsm_event_active=BOOL, _next_event=VAL, sdata=DICT, _duration=MSV,
+declare_fields(_state=VAL, _active_timer=VAL, _fsm_event_active=BOOL, _next_event=VAL, sdata=DICT, _duration=MSV, _ct_default_duration=MSV,
                _fsm_functions=Map(STR, MSV), _state_events=Map(STR, MSV), _on_notrans=Seq('ref:Event'),
                _ct_states=STRSET, _ct_events=STRSET, _ct_transition=Map(VAL, VAL), _ct_timed_event=MSV, _ct_methods=Map(STR, MSV),
                _ct_chainlimit=INT,
